@@ -65,7 +65,7 @@ def subchecks(tier):
          "discipline": 0.7, "server_priority": 0.2, "routing_objects": 0.3, "process_routing": 0.2, "self_loops": 0.4, "zero_service": 0.3,
          "inf": 0.1, "reneging": 0.15, "system_capacity": 0.1, "sched_preempt": 0.0}
     prof = S.Profile(ALLOWED, weights=w, numeric="mixed", max_nodes=3, max_classes=3, plans=("max_time", "max_customers"),
-                     horizon=(5.0, 14.0), budget=600, load="heavy", excluded=common.KNOWN_EXCLUSIONS)
+                     horizon=(5.0, 14.0), budget=600, load="heavy", excluded=common.EXCL["C08"])
     return [
         system_subcheck("system", prof, lambda spec: [ServiceOrder(spec)], nontrivial, classes=classes, obs=True,
                         n={"quick": 7200, "thorough": 40000}, rule="service starts vs priority/discipline oracle"),
